@@ -74,3 +74,22 @@ CLAIMS['C15'] = dict(
           'the shard only via DataAggregator::finalize, which patches every pending segment with the xorb hash; chunk-size constants fit the 3-byte fields and header validation bounds both lengths. '
           'All-paths facts for every input and limit configuration. That each chunk is itself <= the maximum chunk size is C04 arithmetic and not decided.'),
     note='A stricter check (>= instead of >) is accepted.')
+CLAIMS['C03'] = dict(
+    technique='static analysis: dependency slice of the file hash (def-use provenance + who-may-write), must-pass-through for the salting step, cursor identity for input forwarding',
+    text=('Decides that the file hash is a function of the ordered chunk list and the salt only: file_node_hash(self.chunk_hashes, salt); chunk_hashes is written only by one unconditional, non-looping '
+          'extend from the chunks parameter on every successful path of process_chunks (so dedup answers, session contents and concurrency cannot influence it); every non-empty result is salted by a keyed hash '
+          'with the salt parameter; the pointer is built from that hash and the accumulated byte total; add_data forwards contiguous slices exactly once. The partition independence of the chunk list itself (C04) '
+          'and the numeric total (C14) are not decided here.'),
+    note='The empty file\'s unsalted zero hash is the protocol name of the empty file (enumerated idiom).')
+CLAIMS['C04'] = dict(
+    technique='static analysis: pairing (every path from the Chunk construction to return passes both resets), def-use provenance of the chunk hash/data, who-may-construct',
+    text=('Decides the structural necessary conditions of content-defined chunking: whenever a chunk is emitted the rolling hash and the open-chunk length are reset before returning, the chunk hash is '
+          'compute_data_hash over the very buffer that becomes the chunk data (hash first), exactly the consumed prefix is appended to the buffer, and only Chunker::next constructs chunks. A missing reset is '
+          'invisible to the suite because partitioned and one-shot runs share it. Equality with the reference gear-hash rule, partition independence and the min/max bounds are value-level and not decided.'),
+    note='')
+CLAIMS['C06'] = dict(
+    technique='static analysis: def-use dataflow (hashed bytes = accepted bytes), evaluated key constants, call-graph convergence of producer and validators on one merge core',
+    text=('Decides that the streaming hasher is fed exactly the prefix of the buffer that the inner writer accepted (after the write), finalised from the same state and keyed with the same evaluated 32-byte constant '
+          'as the one-shot hash; that the xorb-hash producer, the uploader and both validators aggregate through the single merge core (hash_node_sequence -> compute_internal_node_hash, one caller) with (hash, length) leaves; '
+          'and that the range-verification hash is one keyed hash over all input hashes in order. Equality with an independent implementation, collision behaviour and text-form round trips are value-level and not decided.'),
+    note='R06b is a convergence (sufficient) fact: a behaviour-preserving re-implementation of the merge in one validator would be reported as "cannot establish agreement" by design (three copies of a persistent identity function are the hazard).')
